@@ -59,4 +59,18 @@ PROPS = {
             "padding filters: behaviour around the 10000-character padding cap is only required to be 'error or correct shape'",
         ],
     },
+    "C07": {
+        "quick": [
+            {"test": "TestC07Expr", "checks": 60000, "shards": 4},
+            {"test": "TestC07Enum", "kind": "enum", "shards": 6, "env": {"VERIF_C07_ENUM_BIN": "2"}},
+        ],
+        "thorough": [
+            {"test": "TestC07Expr", "checks": 2400000, "shards": 16},
+            {"test": "TestC07Enum", "kind": "enum", "shards": 16, "env": {"VERIF_C07_ENUM_BIN": "3"}},
+        ],
+        "assumptions": [
+            "fragment (DESIGN.md C07): no and/or mix without parentheses, no chained comparisons, == / != only between equal static types (float32 variables excluded from ==), no ordering of strings, % only on ints, bools never arithmetic, 'not' of a non-bool is used for its truth only, unary minus/not printed bare only where the grammar admits them",
+            "float results are compared bit-exactly: the reference performs the same IEEE operations in the order given by the tree",
+        ],
+    },
 }
